@@ -63,8 +63,12 @@ func (p *c18Prop) Gen(r *Rng, i int, tier string) interface{} {
 	c := &c18Case{Kind: "seq"}
 	levels := []int{3, 15, 16, 17, 31, 32, 33, 63, 64, 65, 127, 128, 129, 255, 256, 257}
 	maxOps := 700
-	if i%50 == 0 {
-		levels = []int{1023, 1024, 1025, 2047, 2048, 2049, 4095, 4096, 4097}
+	if i%100 == 50 {
+		levels = []int{511, 512, 513, 1023, 1024, 1025}
+		maxOps = 3500
+	}
+	if tier == "thorough" && i%200 == 100 {
+		levels = []int{2047, 2048, 2049, 4095, 4096, 4097}
 		maxOps = 14000
 	}
 	size, next := 0, 1
